@@ -727,9 +727,9 @@ pub fn build_env(ctx: &Ctx) -> Result<Env, String> {
     }
     let work = work_dir(ctx);
     let cluster_token = "rnv-cluster-token-7c1".to_string();
-    let cfg_a = NodeCfg { api_login_ttl_s: 7200, console_login_ttl_s: 7200, cluster_token: cluster_token.clone(), leaderless: false };
-    let cfg_b = NodeCfg { api_login_ttl_s: B_TTL_S, console_login_ttl_s: B_TTL_S, cluster_token: cluster_token.clone(), leaderless: false };
-    let cfg_l = NodeCfg { api_login_ttl_s: 7200, console_login_ttl_s: 7200, cluster_token, leaderless: true };
+    let cfg_a = NodeCfg { api_login_ttl_s: 7200, console_login_ttl_s: 7200, cluster_token: cluster_token.clone(), leaderless: false, snapshot_log_size: None };
+    let cfg_b = NodeCfg { api_login_ttl_s: B_TTL_S, console_login_ttl_s: B_TTL_S, cluster_token: cluster_token.clone(), leaderless: false, snapshot_log_size: None };
+    let cfg_l = NodeCfg { api_login_ttl_s: 7200, console_login_ttl_s: 7200, cluster_token, leaderless: true, snapshot_log_size: None };
     let mut nodes = Node::start_many(&work, &[("node-a", &cfg_a), ("node-b", &cfg_b), ("node-l", &cfg_l)])?;
     let l = nodes.pop().ok_or("node-l missing")?;
     let b = nodes.pop().ok_or("node-b missing")?;
@@ -860,7 +860,7 @@ fn fin(env: Option<&Env>) -> Finish {
     }
     Finish {
         level: "exploration",
-        rule: "HTTP: discovered in-scope routes x 6 methods x {none + 5 carriers x 6 token values} in canonical spelling (complete matrix) + random spellings (1-3 of: trailing/double slash, case, percent-escape, ;param, /./, /zz/.., static-file suffix) with random carrier/value/decoy; gRPC: every request type constant + random type strings x session header {none, empty, garbage, never issued, expired, valid} x header key x cluster token {none, empty, prefix, wrong, right} x bi-stream {yes,no}. Non-trivial = the request line reaches a handler when sent with a valid token (HTTP) / the type is served when authorised (gRPC).".to_string(),
+        rule: "HTTP: discovered in-scope routes x 6 methods x {none + 5 carriers x 6 token values} in canonical spelling (complete matrix) + random spellings (1-3 of: trailing/double slash, case, percent-escape, ;param, /./, /zz/.., static-file suffix) with random carrier/value/decoy; restart tier (label restart_tier): generated schedules on a node with a 5 s token TTL and snapshot threshold 10 - logins, write bursts (snapshots built at generated token ages), kill -9, generated down time, restart (optionally a second restart from the same files): every token older than TTL + 1.5 s must be refused through every carrier, a fresh login must be served; gRPC: every request type constant + random type strings x session header {none, empty, garbage, never issued, expired, valid} x header key x cluster token {none, empty, prefix, wrong, right} x bi-stream {yes,no}. Non-trivial = the request line reaches a handler when sent with a valid token (HTTP) / the type is served when authorised (gRPC).".to_string(),
         assumptions,
         exhaustive: None,
     }
@@ -876,6 +876,12 @@ pub fn main(ctx: &Ctx) -> i32 {
 
 fn main_inner(ctx: &Ctx) -> i32 {
     let stats = Arc::new(Stats::default());
+    if let Some(p) = &ctx.replay {
+        if let Ok(rc) = read_replay::<crate::c1617::restart::RestartCase>(p) {
+            let rep = crate::c1617::restart::run_case(&rc, crate::c1617::restart::Kind::Api, &work_dir_path(ctx));
+            return finish_replay(ctx, rep, p);
+        }
+    }
     let t_setup = Instant::now();
     let env = match build_env(ctx) {
         Ok(e) => Arc::new(e),
@@ -962,9 +968,28 @@ fn main_inner(ctx: &Ctx) -> i32 {
     let mut f = fin(Some(&env));
     f.exhaustive = Some(false);
     stats.set_extra("wall_setup_s", serde_json::json!(setup_s));
-    let code = finish(ctx, &stats, f, failure);
+    if failure.is_some() {
+        let code = finish(ctx, &stats, f, failure);
+        drop(env);
+        return code;
+    }
     drop(env);
-    code
+    // tier 4: expired tokens across restarts of the node (restart.rs): saved schedules first, then generated ones
+    let t0 = Instant::now();
+    let work = work_dir_path(ctx);
+    for p in saved_replays("C16") {
+        if let Ok(rc) = read_replay::<crate::c1617::restart::RestartCase>(&p) {
+            let rep = crate::c1617::restart::run_case(&rc, crate::c1617::restart::Kind::Api, &work);
+            stats.label("replayed");
+            stats.record(&rc, &rep);
+            if let Verdict::Violation(m) = &rep.verdict {
+                return finish(ctx, &stats, f, Some(Failure { case: rc, message: format!("regression replay {}: {}", p.display(), m) }));
+            }
+        }
+    }
+    let failure_rt = crate::c1617::restart::run_tier(ctx, &stats, crate::c1617::restart::Kind::Api, &work, ctx.tier.pick(4, 48));
+    stats.set_extra("wall_restart_tier_s", serde_json::json!(t0.elapsed().as_secs_f64()));
+    finish(ctx, &stats, f, failure_rt)
 }
 
 /// regression tier helper: evaluates a stored case with the known-shape exclusion switched off
